@@ -60,11 +60,12 @@ Record gen := {
   g_base : nat;                     (* ghost: source position this generation was reset to *)
   g_recv : nat;                     (* ghost: items the consumer received in this generation (fast-forward included) *)
   g_taken : nat;                    (* ghost: entries the consumer has taken out of its output queue *)
-  g_term : bool                     (* ghost: one of them was the end of the stream (StopIteration / a source error) *)
+  g_term : bool;                    (* ghost: one of them was the end of the stream (StopIteration / a source error) *)
+  g_items : list nat                (* ghost: the items handed to the consumer by this generation, in order (fast-forward included) *)
 }.
 #[export] Instance eta_gen : Settable _ := settable! Build_gen
   <g_sem; g_q1; g_q2; g_q3; g_store; g_stop; g_mpstop; g_r; g_ryield; g_ridx; g_ws; g_s; g_sbuf; g_scur;
-   g_c; g_done; g_snap; g_steps; g_ff; g_cyc; g_base; g_recv; g_taken; g_term>.
+   g_c; g_done; g_snap; g_steps; g_ff; g_cyc; g_base; g_recv; g_taken; g_term; g_items>.
 
 Inductive mode := Go | Timeout.
 Inductive role := GR | GW (i : nat) | GS.
@@ -240,7 +241,7 @@ Definition cstep (c : cfg) (m : mode) (g : gen) : gen * option out :=
             end
   | CRel x i =>
       let '(res, rest) := pop_version (S i) (g_store g) in
-      let g := g <| g_sem ::= S |> <| g_store := rest |> <| g_recv ::= S |> in
+      let g := g <| g_sem ::= S |> <| g_store := rest |> <| g_recv ::= S |> <| g_items ::= fun l => l ++ [x] |> in
       (match res with
        | Some sp => g <| g_snap := sp |> <| g_steps := 0 |>
        | None => g <| g_steps ::= S |>
@@ -306,7 +307,7 @@ Definition new_gen (c : cfg) (base ff : nat) : gen :=
      g_ws := if k_pm c then repeat WStart (k_nw c) else [];
      g_s := if k_pm c && k_inorder c then SStart else SDone; g_sbuf := []; g_scur := 0;
      g_c := if k_pm c then CSleep else CInit; g_done := false; g_snap := base; g_steps := 0; g_ff := ff; g_cyc := false;
-     g_base := base; g_recv := 0; g_taken := 0; g_term := false |}.
+     g_base := base; g_recv := 0; g_taken := 0; g_term := false; g_items := [] |}.
 
 Definition inside (gs : list gen) : nat :=
   length (filter (fun g => match g_r g with RPull => true | _ => false end) gs).
